@@ -28,6 +28,7 @@ Sub(g) ==
     [] g.type \in {"Polygon", "MultiLineString"} -> G(g.type, [i \in DOMAIN x |-> SubPts(x[i])])
     [] g.type = "MultiPolygon" -> G(g.type, [i \in DOMAIN x |-> [j \in DOMAIN x[i] |-> SubPts(x[i][j])]])
 Rect(s, l, e, h) == <<<<s, l>>, <<e, l>>, <<e, h>>, <<s, h>>, <<s, l>>>>
+Late == 100000000                                \* 1e8 time sub-ticks = 5e7 / 2.5e7 / 6.25e6 s
 Edge == <<                                        \* shapes on the three edges of the domain (sub-ticks)
   G("Point", <<0, FMAXS>>),
   G("Point", <<6, 0>>),
@@ -47,13 +48,23 @@ Edge == <<                                        \* shapes on the three edges o
   G("Point", <<4, 72000>>),
   G("LineString", <<<<2, 72000>>, <<6, 72000>>>>),
   G("Polygon", <<Rect(2, 72000, 6, 72032)>>),
-  G("LineString", <<<<0, 0>>, <<1, 32>>, <<2, 16>>>>)    \* with buffers (1, 0): buffer_geometry raises KeyError (found by the random driver)
+  G("LineString", <<<<0, 0>>, <<1, 32>>, <<2, 16>>>>),   \* with buffers (1, 0): buffer_geometry raises KeyError (found by the random driver)
+  \* events late in a long recording: Late sub-ticks are >= 6.25e6 s at every time unit, beyond MAX_FREQUENCY = 5e6 as a number.
+  \* Time has no upper edge, so nothing may be clamped there.  (Closed-form kinds only: their oracle needs no products.)
+  G("TimeStamp", Late),
+  G("TimeInterval", <<Late - 2, Late + 4>>),
+  G("BoundingBox", <<Late, 16, Late + 6, 48>>),
+  G("BoundingBox", <<Late - 4, 0, Late, FMAXS>>)
 >>
 TickCat == Catalogue(FMAXC)
 Geoms == [i \in 1..(Len(TickCat) + Len(Edge)) |-> IF i <= Len(TickCat) THEN Sub(TickCat[i]) ELSE Edge[i - Len(TickCat)]]
 
-BT == <<0, 1, 2, 4, 200>>                        \* time buffers: 0, 1/2, 1, 2 ticks, far beyond time 0
+\* time buffers: 0, 1/2, 1, 2 ticks, far beyond time 0, and (closed-form kinds) 2e8 sub-ticks = 1e8 / 5e7 / 1.25e7 s:
+\* longer than MAX_FREQUENCY seconds at every unit -- the time axis is unbounded above, the result must end at end + tb
+BT == <<0, 1, 2, 4, 200, 200000000>>
 BF == <<0, 8, 16, 32, 2 * FMAXS>>                \* frequency buffers: 0, 1/2, 1, 2 ticks, twice the domain
+NT(g) == IF g.type \in ClosedKinds THEN 6 ELSE 5   \* the shapely kinds stay below 2^31 / 207 (their targets are scaled by CapD)
+UpT(g, i) == Min(i + 1, NT(g))
 Up(i) == Min(i + 1, 5)
 NegPairs == <<<<<<-1, 0>>, <<0, -8>>>>, <<<<-1, -8>>, <<-2, 16>>>>, <<<<4, -1>>, <<0, 0>>>>>>
 
@@ -75,10 +86,11 @@ Probes(g) ==
     IN  grid \o SeqOf(Vertices(g) \ Range(grid))          \* the vertices themselves are always probed
 
 UnitsOf(gi, i, j) == IF AllUnits THEN 1..3 ELSE {((gi + i + 2 * j) % 3) + 1}        \* u: which time unit the binder uses
-Descriptors == UNION {{[gi |-> gi, i |-> i, j |-> j, neg |-> 0, u |-> u] : u \in UnitsOf(gi, i, j)} : gi \in 1..Len(Geoms), i \in 1..5, j \in 1..5}
+Descriptors == UNION {UNION {{[gi |-> gi, i |-> i, j |-> j, neg |-> 0, u |-> u] : u \in UnitsOf(gi, i, j)} :
+                                 i \in 1..NT(Geoms[gi]), j \in 1..5} : gi \in 1..Len(Geoms)}
           \cup {[gi |-> gi, i |-> 1, j |-> 1, neg |-> n, u |-> (n % 3) + 1] : gi \in 1..Len(Geoms), n \in 1..3}
 B1(d) == IF d.neg = 0 THEN <<BT[d.i], BF[d.j]>> ELSE NegPairs[d.neg][1]
-B2(d) == IF d.neg = 0 THEN <<BT[Up(d.i)], BF[Up(d.j)]>> ELSE NegPairs[d.neg][2]
+B2(d) == IF d.neg = 0 THEN <<BT[UpT(Geoms[d.gi], d.i)], BF[Up(d.j)]>> ELSE NegPairs[d.neg][2]
 Concrete(d) == [g |-> Geoms[d.gi], b1 |-> B1(d), b2 |-> B2(d), probes |-> Probes(Geoms[d.gi]), u |-> d.u]
 
 Init == /\ c \in {d \in Descriptors : (d.gi * 7 + d.i * 3 + d.j + d.neg) % GeomStride = 0}
@@ -99,7 +111,7 @@ Export == ph = "out" => PrintT(<<"CASE", ToJson(Concrete(c))>>)
 LawAt == ph = "out" /\ c.i = 1 /\ c.j = 1 /\ c.neg = 0 /\ c.u = CHOOSE u \in UnitsOf(c.gi, 1, 1) : TRUE
 GG == Geoms[c.gi]
 PP == Range(Probes(GG))
-AllB == {<<BT[i], BF[j]>> : i \in 1..5, j \in 1..5}
+AllB == {<<BT[i], BF[j]>> : i \in 1..NT(GG), j \in 1..5}
 Le2(a, b) == a[1] <= b[1] /\ a[2] <= b[2]
 IsClosed == GG.type \in ClosedKinds
 \* closed forms: the result contains the original, larger buffers give supersets (no restriction on the ratio),
@@ -109,6 +121,8 @@ LawClosedMonotone == (LawAt /\ IsClosed) => LET pp == PP IN \A b \in AllB : \A b
                           \A p \in pp : OnOrIn(BufClosed(GG, b), p) => OnOrIn(BufClosed(GG, b2), p)
 LawClosedDomain   == (LawAt /\ IsClosed) => \A b \in AllB :
                           LET o == Bounds(BufClosed(GG, b), FMAXS) IN 0 <= o[1] /\ o[1] <= o[3] /\ 0 <= o[2] /\ o[2] <= o[4] /\ o[4] <= FMAXS
+\* the time axis is unbounded above: the end is end + tb, even beyond MAX_FREQUENCY as a number of seconds at every unit
+LawTimeUnbounded  == (LawAt /\ IsClosed) => \A b \in AllB : Bounds(BufClosed(GG, b), FMAXS)[3] = Bounds(GG, FMAXS)[3] + b[1]
 LawClosedWidening == (LawAt /\ IsClosed) => \A b \in AllB : Bounds(BufClosed(GG, b), FMAXS) = Target(GG, b)
 \* relational clauses are satisfiable: the clipped Minkowski rectangle Target(g, b) contains the original, lies in the
 \* domain and grows with the buffers; the tolerated round-cap target is never more demanding than the exact one
@@ -117,7 +131,8 @@ LawWitness == LawAt => LET inp == {p \in PP : OnOrIn(GG, p)} IN \A b \in AllB :
     /\ 0 <= t[1] /\ t[1] <= t[3] /\ 0 <= t[2] /\ t[2] <= t[4] /\ t[4] <= FMAXS
     /\ \A p \in inp : t[1] <= p[1] /\ p[1] <= t[3] /\ t[2] <= p[2] /\ p[2] <= t[4]
     /\ \A b2 \in AllB : Le2(b, b2) => LET t2 == Target(GG, b2) IN t2[1] <= t[1] /\ t2[2] <= t[2] /\ t[3] <= t2[3] /\ t[4] <= t2[4]
-    /\ LET r == TargetRoundScaled(GG, b) IN CapD * t[1] <= r[1] /\ CapD * t[2] <= r[2] /\ r[3] <= CapD * t[3] /\ r[4] <= CapD * t[4]
+    /\ GG.type \in RoundKinds =>
+          LET r == TargetRoundScaled(GG, b) IN CapD * t[1] <= r[1] /\ CapD * t[2] <= r[2] /\ r[3] <= CapD * t[3] /\ r[4] <= CapD * t[4]
 \* every vertex of the original is among the probes that must be contained (so Contains is never vacuous)
 LawProbesCoverVertices == LawAt => LET pp == PP IN \A v \in (IF GG.type \in TimeOnlyKinds THEN {} ELSE Vertices(GG)) : v \in pp /\ OnOrIn(GG, v)
 LawSomeProbeOutside == LawAt => (GG.type \notin TimeOnlyKinds => \E p \in PP : ~OnOrIn(GG, p))
@@ -135,5 +150,6 @@ LawMonoComparable == (LawAt /\ c.gi = 1) =>
                                   /\ MonoComparable(<<1, 8>>, <<2, 16>>) /\ MonoComparable(<<0, 0>>, <<0, 8>>) /\ MonoComparable(<<4, 8>>, <<4, 8>>)
                                   /\ ~MonoComparable(<<4, 8>>, <<4, 16>>) /\ ~MonoComparable(<<1000, 0>>, <<1004, 0>>)
                                   /\ MonoComparable(<<206, 0>>, <<207, 0>>) /\ ~MonoComparable(<<2, 8>>, <<1, 16>>)
+                                  /\ MonoComparable(<<200, 0>>, <<200000000, 0>>) /\ ~MonoComparable(<<412, 0>>, <<413, 0>>) /\ MonoComparable(<<412, 0>>, <<414, 0>>)
 LawOutcome == ph = "out" => Len(res) = 2
 =============================================================================
